@@ -34,6 +34,8 @@ class Interp(ExprMixin, StmtMixin, CallMixin):
             si.is_finite: self.i_is_finite, si.f32_round: self.i_f32_round, si.float_eq: self.i_float_eq,
             si.f32_bytes: self.i_f32_bytes, si.f64_bytes: self.i_f64_bytes, si.ghost: self.i_ghost,
             si.fresh_int: self.i_fresh_int, si.f32_of_bytes: self.i_f32_of_bytes, si.f64_of_bytes: self.i_f64_of_bytes, si.prefix_sum: self.i_prefix_sum, si.fresh_bool: self.i_fresh_bool,
+            si.region_of: self.i_region_of, si.region_size: self.i_region_size, si.key_of: self.i_key_of, si.reach: self.i_reach,
+            si.reach_transitive: self.i_reach_transitive, si.reach_closed: self.i_reach_closed, si.reach_depth: self.i_reach_depth,
         })
         from . import models_threading
         self.models.update(models_threading.build())
@@ -253,6 +255,81 @@ class Interp(ExprMixin, StmtMixin, CallMixin):
             return total
         arr, _, _ = seqops.as_array(sq)
         return mk("int", PS(arr, to_term(i, "int")))
+
+    # ---- heap regions
+    def _region_cell(self, r):
+        if isinstance(r, OldView):
+            return self.old_heap[r.ref.addr], r.ref
+        return self.path.cell(r), r
+
+    def i_region_of(self, I, args, kw):
+        x = args[0]
+        if not isinstance(x, MapElem):
+            raise Unsupported("region_of: not an object of a region")
+        return OldView(x.map_ref) if x.old else x.map_ref
+
+    def i_region_size(self, I, args, kw):
+        cell, _ = self._region_cell(args[0])
+        return mk("int", cell.n)
+
+    def i_key_of(self, I, args, kw):
+        x = args[0]
+        if x is None:
+            return -1
+        if not isinstance(x, MapElem):
+            raise Unsupported("key_of: not an object of a region")
+        return mk("int", x.key)
+
+    def _reach_fn(self, region, field):
+        """The closure relation over the links of the PRE-state, as an uninterpreted relation with its defining fixpoint
+        equation (consistent for every link array; it has exactly one solution when the links are acyclic, which the
+        contracts require through a decreasing ghost depth)."""
+        cell, ref = self._region_cell(region)
+        kind, arr0 = cell.fields0[field]
+        if kind != "link":
+            raise Unsupported("reach over a field that is not a link")
+        from .values import reach_function
+        F = reach_function(cell.rname, field)     # its defining equation was assumed when the region was created
+        return F, cell
+
+    def _k(self, x):
+        if x is None:
+            return z3.IntVal(-1)
+        if isinstance(x, MapElem):
+            return x.key
+        return to_term(x, "int")
+
+    def i_reach(self, I, args, kw):
+        region, field, a, b = args
+        F, _ = self._reach_fn(region, field)
+        return mk("bool", F(self._k(a), self._k(b)))
+
+    def i_reach_transitive(self, I, args, kw):
+        """Transitivity of reach within the region - a lemma (proved once, generically, by induction on the depth: lemma unit
+        ReachLemmas), stated here as a formula so that a contract can take it as a hypothesis."""
+        region, field = args
+        F, cell = self._reach_fn(region, field)
+        a, b, c = z3.Int("ta!"), z3.Int("tb!"), z3.Int("tc!")
+        n = cell.n
+        return mk("bool", z3.ForAll([a, b, c], z3.Implies(z3.And(a >= 0, a < n, F(a, b), F(b, c)), F(a, c)), patterns=[z3.MultiPattern(F(a, b), F(b, c))]))
+
+    def i_reach_closed(self, I, args, kw):
+        """reach never leaves the region and never reaches None (lemma, as above)."""
+        region, field = args
+        F, cell = self._reach_fn(region, field)
+        a, b = z3.Int("ca!"), z3.Int("cb!")
+        n = cell.n
+        return mk("bool", z3.ForAll([a, b], z3.Implies(z3.And(F(a, b), a >= 0, a < n), z3.And(b >= 0, b < n)), patterns=[F(a, b)]))
+
+    def i_reach_depth(self, I, args, kw):
+        """Whatever is reached from a region object is not deeper than it (lemma, as above; with the strictly decreasing
+        depth this is what makes the links acyclic: no object is an ancestor of its own parent)."""
+        region, field, dfield = args
+        F, cell = self._reach_fn(region, field)
+        a, b = z3.Int("da!"), z3.Int("db!")
+        n = cell.n
+        depth = cell.fields0[dfield][1]
+        return mk("bool", z3.ForAll([a, b], z3.Implies(z3.And(F(a, b), a >= 0, a < n), z3.Select(depth, b) <= z3.Select(depth, a)), patterns=[F(a, b)]))
 
     def i_fresh_bool(self, I, args, kw):
         return Sym("bool", z3.Bool(self.path.fresh_name(args[0] if args else "nd")))
